@@ -6,7 +6,10 @@ patch="$1"; shift
 cd /repo || exit 2
 if [ -n "$(git status --porcelain -- src)" ]; then echo "/repo/src is dirty, refusing"; exit 2; fi
 if ! git apply "$patch"; then echo "patch does not apply: $patch"; exit 2; fi
-trap 'git -C /repo checkout -- . ; rm -f /verif/replays/*' EXIT
+bak=$(mktemp -d /dev/shm/seedtest-ev.XXXXXX)
+cp -a /verif/evidence/. "$bak"/ 2>/dev/null
+# evidence written while a seeded change is applied says nothing about the real tree: restore it
+trap 'git -C /repo checkout -- . ; find /verif/replays -name "*.json" -delete; cp -a "$bak"/. /verif/evidence/ 2>/dev/null; rm -rf "$bak"' EXIT
 for id in "$@"; do
   out=$(cd /verif && VERIF_SCALE="${VERIF_SCALE:-1}" ./check "$id" "${TIER:-quick}" 2>&1); rc=$?
   if [ $rc -eq 1 ]; then echo "$id: caught  $(echo "$out" | grep -m1 'clause=')"
